@@ -146,6 +146,17 @@ def is_model_tree(t):
   return not tree_has(t, bad)
 
 
+def is_model_tree_any(t):
+  """As is_model_tree, for any class (the environment is built from the real schemas)."""
+  def bad(x):
+    if isinstance(x, str) and any(0xD800 <= ord(c) < 0xE000 for c in x):
+      return True
+    if isinstance(x, dict) and x.get('f') == 'nan':
+      return False
+    return False
+  return not tree_has(t, bad)
+
+
 def plain_of_tree(t):
   """Plain-Python JSON structure of a plain tree (what to_json_str dumps), `n_:` keys encoded."""
   if isinstance(t, dict):
@@ -781,7 +792,12 @@ class _Impl:
       items = v.sym_items() if isinstance(v, pg.Dict) else v.items()
       return {'d': [[self.wire_key(k), self.to_wire(x)] for k, x in items]}
     if isinstance(v, pg.Object):
-      return {'o': type(v).__type_name__, 'a': [[str(k), self.to_wire(x)] for k, x in v.sym_items()]}
+      return {'o': type(v).__serialization_key__, 'a': [[str(k), self.to_wire(x)] for k, x in v.sym_items()]}
+    if isinstance(v, pg.KeyPath):
+      return str(v)                       # a key path is its path string (which is also its JSON form)
+    if isinstance(v, type) and '<locals>' not in v.__qualname__:
+      # a class value is `{'_type': 'type', 'name': …}`: an object of the pseudo-class 'type'
+      return {'o': 'type', 'a': [['name', '%s.%s' % (v.__module__, v.__qualname__)]]}
     return {'opaque': type(v).__name__}
 
   def wire_key(self, k):
@@ -941,12 +957,100 @@ class _Impl:
 
   # -- case kinds -----------------------------------------------------------------------------
   def codec(self, case):
-    pg = self.pg
-    t, ap = case['value'], case['ap']
+    t = case['value']
     try:
       v = self.build(t)
     except Exception as e:   # pylint: disable=broad-except
       return {'build_error': type(e).__name__, 'msg': str(e)[:200]}
+    return self.codec_value(case, v, t)
+
+  # -- library classes compared through a class environment built from their real schemas ------
+  def dyn_value(self, case):
+    pg = self.pg
+    what = case['what']
+    P, Q = self.classes['P'], self.classes['Q']
+    if what in ('hyper', 'dnaspec'):
+      self._names = 0
+      h = pg.Dict(x=self.build_geno(case['expr']))
+      return pg.dna_spec(h) if what == 'dnaspec' else h
+    if what == 'diff':
+      a = Q(a=pg.Dict(u=1, v=[1, 2]), n=3)
+      b = Q(a=pg.Dict(u=case['expr'], v=[1, 3]), n=None, b=True)
+      return pg.diff(a, b)
+    if what == 'functor':
+      return pg.Dict(f=self.mod.vocab_functor(case['expr']), g=self.mod.vocab_functor(1, y=[case['expr'], (1, 'a')]))
+    raise AssertionError(what)
+
+  def kind_of(self, spec):
+    T = self.pg.typing
+    if isinstance(spec, T.Bool):
+      return 'bool'
+    if isinstance(spec, T.Int):
+      return 'int'
+    if isinstance(spec, T.Str):
+      return 'str'
+    if isinstance(spec, T.List) and isinstance(spec.element.value, T.Any) and spec.max_size is None:
+      return 'list'
+    if isinstance(spec, T.Dict) and spec.schema is None:
+      return 'dict'
+    return 'any'            # richer spec: the model only needs "accepts the values the library built"
+
+  def dyn_env(self, v):
+    """ENV extended with the schemas of every other pg.Object class occurring in `v` (None if a
+    class has non-constant keys or a default the tree wire cannot express)."""
+    pg = self.pg
+    T = pg.typing
+    found, uses_type = {}, [False]
+
+    def visit(x):
+      if isinstance(x, pg.Object):
+        found[type(x).__serialization_key__] = type(x)
+      if isinstance(x, type):
+        uses_type[0] = True
+      if isinstance(x, pg.Symbolic):
+        for _, c in x.sym_items():
+          visit(c)
+      elif isinstance(x, (list, tuple)):
+        for c in x:
+          visit(c)
+      elif isinstance(x, dict):
+        for c in x.values():
+          visit(c)
+    visit(v)
+    env = {'classes': list(ENV['classes'])}
+    known = {c[0] for c in ENV['classes']}
+    if uses_type[0]:
+      env['classes'].append(['type', [_f('name', 'str')]])
+    for key in sorted(found):
+      if key in known:
+        continue
+      fields = []
+      for k, f in found[key].__schema__.fields.items():
+        if not isinstance(k, T.ConstStrKey):
+          return None
+        spec = f.value
+        d = {'name': str(k), 'kind': self.kind_of(spec),
+             'noneable': bool(spec.is_noneable) or isinstance(spec, T.Any), 'frozen': bool(spec.frozen)}
+        if spec.has_default:
+          d['default'] = self.to_wire(spec.default)
+          if '"opaque"' in json.dumps(d['default']):
+            # a default the tree wire cannot express (e.g. the sentinel `Diff.MISSING`): the model sees a
+            # required field, which is the same thing on values that carry every attribute
+            del d['default']
+        fields.append(d)
+      env['classes'].append([key, fields])
+    return env
+
+  def dyn(self, case):
+    v = self.dyn_value(case)
+    t = self.to_wire(v)
+    out = self.codec_value({'ap': False}, v, t)
+    out['wire'] = t
+    return out
+
+  def codec_value(self, case, v, t):
+    pg = self.pg
+    ap = case['ap']
     built = self.to_wire(v)
     out = {'built_same': built == t}
     model = {}
@@ -1638,6 +1742,12 @@ class C05(Prop):
       yield gen_dna_case(rng)
     for i in range(400 if quick else 12000):
       yield gen_vspec_case(rng)
+    for i in range(200 if quick else 6000):
+      what = rng.weighted([(4, 'hyper'), (4, 'dnaspec'), (2, 'diff'), (2, 'functor')])
+      if what in ('hyper', 'dnaspec'):
+        yield {'kind': 'dyn', 'what': what, 'expr': gen_geno(rng, 2)}
+      else:
+        yield {'kind': 'dyn', 'what': what, 'expr': rng.choice([0, 5, 'x', None, -2])}
     if not quick:
       yield from self.exhaustive_paths()
     for i in range(n_spec):
@@ -1692,6 +1802,8 @@ class C05(Prop):
       return im.dna(case)
     if k == 'vspec':
       return im.vspec(case)
+    if k == 'dyn':
+      return im.dyn(case)
     raise AssertionError(k)
 
   def model_request(self, case):
@@ -1704,6 +1816,15 @@ class C05(Prop):
         req['hide_frozen'] = case['opts']['hide_frozen']
         req['hide_default_values'] = case['opts']['hide_default_values']
       return req
+    if k == 'dyn':
+      self.setup_impl()
+      im = C05._impl
+      v = im.dyn_value(case)
+      t = im.to_wire(v)
+      env = im.dyn_env(v)
+      if env is None or '"opaque"' in json.dumps(t) or not is_model_tree_any(t):
+        return None
+      return {'op': 'codec', 'env': env, 'value': t, 'ap': False}
     if k in ('load', 'load_str'):
       req = {'op': k, 'env': ENV, 'json': case['json'], 'ap': case['ap']}
       if case.get('auto_dict'):
@@ -1745,6 +1866,9 @@ class C05(Prop):
 
   def compare(self, case, impl_out, model_out):
     k = case['kind']
+    if k == 'dyn':
+      case = {'value': impl_out['wire'], 'kind': 'codec'}
+      k = 'codec'
     if k == 'codec':
       if 'model' not in impl_out:
         return None       # value could not be built / serialised: nothing to compare
@@ -1811,6 +1935,8 @@ class C05(Prop):
   # -- the property itself ------------------------------------------------------------------
   def oracle(self, case, out):
     k = case['kind']
+    if k == 'dyn':
+      return self.oracle({'kind': 'codec', 'value': out['wire'], 'ap': False}, out)
     if k == 'codec':
       if 'build_error' in out:
         return None
@@ -2080,6 +2206,8 @@ class C05(Prop):
       return isinstance(case['nest'], dict) and 'q' not in case['nest']
     if k == 'vspec':
       return 'extra' in case or case['desc']['k'] in ('list', 'tuple', 'dict', 'union')
+    if k == 'dyn':
+      return True
     if k in ('store', 'hstore'):
       ops = case['ops']
       wrote = set()
@@ -2123,6 +2251,10 @@ class C05(Prop):
     elif k in ('load', 'load_str'):
       rt = out['model']['rt']
       h.append('%s%s:%s' % (k, '+auto_dict' if case.get('auto_dict') else '', 'ok' if 'ok' in rt else rt['err']))
+    elif k == 'dyn':
+      h.append('dyn:' + case['what'])
+      if 'model' in out:
+        h.append('dyn:rt=' + ('ok' if 'ok' in out['model']['rt'] else out['model']['rt']['err']))
     elif k == 'vspec':
       h.append('vspec:' + (out.get('kind') or ('build-error' if 'build_error' in out else 'to_json-error')))
       if 'model' in out:
